@@ -47,6 +47,9 @@ ObsOk(st, o) ==
       [] o.k = "keys"     -> o.ks = ObsKeys(st)
       [] o.k = "values"   -> o.vs = ObsValues(st)
       [] o.k = "len"      -> o.n = Len(st.order)
+      \* a second map built from the same initial object, and that object itself, are what they were when the
+      \* history began: a map shares nothing with the object it was built from
+      [] o.k = "twin"     -> o.now = o.init /\ o.src = o.src0
       [] o.k = "eq_copy"  -> o.v                       \* the map equals a plain dict with the same content, and a copy of itself
 ObsOf(ev) == IF "obs" \in DOMAIN ev THEN ev.obs ELSE <<>>
 
